@@ -559,14 +559,14 @@ theorem C03_HS_U_sorted_probU (E : UHS.Env U Rat) (rank : UHS.UNT U → Nat) (ho
     stopped (it does: `C02_HS_U_full`), a member `p` that is strictly more probable than a yielded `q`
     occurs before `q` -/
 theorem C03_HS_U_more_probable_before (E : UHS.Env U Rat) (rank : UHS.UNT U → Nat) (hops : E.ops = UHS.probOps 0)
-    (R : RHyp E rank (fun v : Rat => 0 ≤ v)) (hkeys : ∀ nt F, ((UHS.altsOf E nt F).map (·.1)).Nodup) (d0 : UHS.UNT U)
+    (R : RHyp E rank (fun v : Rat => 0 ≤ v)) (hnf : ∀ p, E.filter p = true) (hkeys : ∀ nt F, ((UHS.altsOf E nt F).map (·.1)).Nodup) (d0 : UHS.UNT U)
     (hun : ∀ p, PS.U.unambiguousOn (E.G.toUCFG d0) p = true) (fuel k : Nat) (s' : UHS.St U Rat) (l1 l2 : List Prog)
     (q p : Prog) (h : UHS.take E fuel k (UHS.St.empty E.G) [] = some (s', l1 ++ q :: l2, true))
     (hp : PS.U.genU (E.G.toUCFG d0) p = true)
     (hlt : PS.U.probU (E.G.toUCFG d0) E.G.toTags q < PS.U.probU (E.G.toUCFG d0) E.G.toTags p) : p ∈ l1 := by
   have hsorted := C03_HS_U_sorted_probU E rank hops R hkeys d0 hun fuel k s' _ true h
   obtain ⟨nt, w, hw, hd⟩ := (derStart_iff_genU E d0 p).mpr hp
-  have hmem : p ∈ l1 ++ q :: l2 := take_complete R fuel k s' _ h p nt w hw hd
+  have hmem : p ∈ l1 ++ q :: l2 := take_complete R fuel k s' _ h p nt w hw hd (PS.HG.clean_of_all E.filter hnf p)
   rcases List.mem_append.mp hmem with h1 | h2
   · exact h1
   · exfalso
@@ -585,16 +585,16 @@ theorem C03_HS_U_more_probable_before (E : UHS.Env U Rat) (rank : UHS.UNT U → 
     than a popped program is left (`UHS.prefixOK_all`); at the start heap, the entry of a start symbol is
     not worse than anything not yet taken from it and not better than anything taken (`UHS.OG.heap_ge`). -/
 theorem C03_HS_U_prefix_complete (E : UHS.Env U π) (rank : UHS.UNT U → Nat) (Good : π → Prop) (R : RHyp E rank Good)
-    (fuel k : Nat) (s' : UHS.St U π) (out : List Prog) (b : Bool)
+    (hnf : ∀ p, E.filter p = true) (fuel k : Nat) (s' : UHS.St U π) (out : List Prog) (b : Bool)
     (h : UHS.take E fuel k (UHS.St.empty E.G) [] = some (s', out, b)) (p q : Prog) (hq : q ∈ out) (kp kq : π)
     (hkp : StartKey E p kp) (hkq : StartKey E q kq) (hlt : E.ops.lt kp kq = true) : p ∈ out :=
-  take_prefix_complete R fuel k s' out b h p q hq kp kq hkp hkq hlt
+  take_prefix_complete R hnf fuel k s' out b h p q hq kp kq hkp hkq hlt
 
 /-- the statement of C03 for `UHeapSearch` in terms of the specification: in a prefix `l1 ++ q :: l2` of the
     enumeration, every member of probability `U.probU` strictly larger than that of `q` is in `l1` — once a
     program of probability x has been produced, every program of strictly larger probability has been -/
 theorem C03_HS_U_prefix_complete_probU (E : UHS.Env U Rat) (rank : UHS.UNT U → Nat) (hops : E.ops = UHS.probOps 0)
-    (R : RHyp E rank (fun v : Rat => 0 ≤ v)) (hkeys : ∀ nt F, ((UHS.altsOf E nt F).map (·.1)).Nodup) (d0 : UHS.UNT U)
+    (R : RHyp E rank (fun v : Rat => 0 ≤ v)) (hnf : ∀ p, E.filter p = true) (hkeys : ∀ nt F, ((UHS.altsOf E nt F).map (·.1)).Nodup) (d0 : UHS.UNT U)
     (hun : ∀ p, PS.U.unambiguousOn (E.G.toUCFG d0) p = true) (fuel k : Nat) (s' : UHS.St U Rat) (l1 l2 : List Prog)
     (q p : Prog) (b : Bool) (h : UHS.take E fuel k (UHS.St.empty E.G) [] = some (s', l1 ++ q :: l2, b))
     (hp : PS.U.genU (E.G.toUCFG d0) p = true)
@@ -606,7 +606,7 @@ theorem C03_HS_U_prefix_complete_probU (E : UHS.Env U Rat) (rank : UHS.UNT U →
   have e1 := startKey_probU E 0 hops hkeys d0 p (hun p) nt w pr hw hpr
   have e2 := startKey_probU E 0 hops hkeys d0 q (hun q) nt' w' pr' hw' hpr'
   have hmem : p ∈ l1 ++ q :: l2 := by
-    apply C03_HS_U_prefix_complete E rank _ R fuel k s' _ b h p q (by simp) (E.ops.adjust pr w) (E.ops.adjust pr' w')
+    apply C03_HS_U_prefix_complete E rank _ R hnf fuel k s' _ b h p q (by simp) (E.ops.adjust pr w) (E.ops.adjust pr' w')
       ⟨nt, w, pr, hw, hpr, rfl⟩ ⟨nt', w', pr', hw', hpr', rfl⟩
     rw [hops]
     show decide (pr' * w' < pr * w) = true
@@ -627,18 +627,18 @@ theorem C03_HS_U_prefix_complete_probU (E : UHS.Env U Rat) (rank : UHS.UNT U →
     programs are non-decreasing for `Bucket.__lt__`; and (prefix completeness) a member whose tuple is `<`
     the tuple of a yielded program has been yielded -/
 theorem C03_HS_U_bucket_sorted (E : UHS.Env U UHS.Bucket) (rank : UHS.UNT U → Nat) (size : Nat)
-    (R : RHyp E rank (fun b : UHS.Bucket => b.length = size)) (fuel k : Nat) (s' : UHS.St U UHS.Bucket) (out : List Prog)
+    (R : RHyp E rank (fun b : UHS.Bucket => b.length = size)) (hnf : ∀ p, E.filter p = true) (fuel k : Nat) (s' : UHS.St U UHS.Bucket) (out : List Prog)
     (b : Bool) (h : UHS.take E fuel k (UHS.St.empty E.G) [] = some (s', out, b)) :
     out.Pairwise (fun p q => ∀ kp kq, StartKey E p kp → StartKey E q kq → E.ops.lt kq kp = false) ∧
     (∀ p q, q ∈ out → ∀ kp kq, StartKey E p kp → StartKey E q kq → E.ops.lt kp kq = true → p ∈ out) :=
   ⟨C03_HS_U_sorted E rank _ R fuel k s' out b h,
-   fun p q hq kp kq hkp hkq hlt => C03_HS_U_prefix_complete E rank _ R fuel k s' out b h p q hq kp kq hkp hkq hlt⟩
+   fun p q hq kp kq hkp hkq hlt => C03_HS_U_prefix_complete E rank _ R hnf fuel k s' out b h p q hq kp kq hkp hkq hlt⟩
 
 def uRank (nt : UHS.UNT Nat) : Nat := nt.2
 
 theorem uE_rhyp : RHyp uE uRank (fun v : Rat => 0 ≤ v) :=
   rhyp_prob uE uRank rfl rfl (by decide) (by decide) (by decide) (by decide) (by decide) (by decide) (by decide)
-    (by decide +kernel) (by decide) (fun _ => rfl)
+    (by decide +kernel) (by decide)
 
 example : ∀ k s' out b, UHS.take uE 60 k (UHS.St.empty uG) [] = some (s', out, b) →
     out.Pairwise (fun p q => ∀ nt w pr nt' w' pr', UHS.startW uE nt = some w → HasPrio uE p nt pr →
@@ -659,7 +659,7 @@ example : ∀ s' l1 l2 q p b, UHS.take uE 60 6 (UHS.St.empty uG) [] = some (s', 
     PS.U.genU (uG.toUCFG u0) p = true →
     PS.U.probU (uG.toUCFG u0) uG.toTags q < PS.U.probU (uG.toUCFG u0) uG.toTags p → p ∈ l1 :=
   fun s' l1 l2 q p b h hp hlt =>
-    C03_HS_U_prefix_complete_probU uE uRank rfl uE_rhyp (altKeys_of_check uE (by decide)) u0 uE_unamb 60 6 s' l1 l2 q p b h hp hlt
+    C03_HS_U_prefix_complete_probU uE uRank rfl uE_rhyp (fun _ => rfl) (altKeys_of_check uE (by decide)) u0 uE_unamb 60 6 s' l1 l2 q p b h hp hlt
 
 /-- the probabilities of the 22 programs of the example in the order of the enumeration -/
 example : (UHS.take uE 60 6 (UHS.St.empty uG) []).map (fun r => r.2.1.map (PS.U.probU (uG.toUCFG u0) uG.toTags)) =
@@ -669,11 +669,11 @@ def uEb : UHS.Env Nat UHS.Bucket := { G := uG, ops := UHS.bucketOps 3 false, fil
 
 theorem uEb_rhyp : RHyp uEb uRank (fun b : UHS.Bucket => b.length = 3) :=
   rhyp_bucket uEb uRank 3 rfl rfl (by decide) (by decide) (by decide) (by decide) (by decide) (by decide) (by decide)
-    (by decide) (fun _ => rfl)
+    (by decide)
 
 example : ∀ k s' out b, UHS.take uEb 60 k (UHS.St.empty uG) [] = some (s', out, b) →
     out.Pairwise (fun p q => ∀ kp kq, StartKey uEb p kp → StartKey uEb q kq → uEb.ops.lt kq kp = false) :=
-  fun k s' out b h => (C03_HS_U_bucket_sorted uEb uRank 3 uEb_rhyp 60 k s' out b h).1
+  fun k s' out b h => (C03_HS_U_bucket_sorted uEb uRank 3 uEb_rhyp (fun _ => rfl) 60 k s' out b h).1
 
 example : (UHS.take uEb 60 30 (UHS.St.empty uG) []).map (fun r => (r.2.1.length, r.2.2)) = some (22, true) := by
   decide +kernel
